@@ -748,6 +748,51 @@ func c14ForeignDecode(g *Gen) {
 	guard(func() (string, error) { return "", new(eap.EAP).Unmarshal(exact(w)) })
 }
 
+// a message that was RECEIVED (decoded from a canonical packet written by the reference encoder) and is then
+// modified through the API: further SetAttr calls (new types and overwrites), read back, marshalled
+func (c *Ctx) c14DecodedThenSet(s *SuiteStat, g *Gen, idx int) {
+	sets1, sets2 := g.akaSets(), g.akaSets()
+	sub := uint64(g.pick(1, 2, 4, 5, 12, 13, 14))
+	code, id := uint64(g.pick(1, 2)), g.u8()
+	td1 := L(A("AKA"), N(sub))
+	td1.List = append(td1.List, sets1...)
+	all := L(A("AKA"), N(sub))
+	all.List = append(append(all.List, sets1...), sets2...)
+	wire1 := refEapBytes(L(A("EAP"), N(code), N(id), td1))
+	wantWire := refEapBytes(L(A("EAP"), N(code), N(id), all))
+	text := "decoded-then-set " + hx(wire1) + " " + L(sets2...).String()
+	setCase(text)
+	s.add(text, len(sets2) > 0, "step:decoded-then-set", fmt.Sprintf("received-attrs:%d", len(sets1)), fmt.Sprintf("set-afterwards:%d", len(sets2)))
+	r := guard(func() (string, error) {
+		e := new(eap.EAP)
+		if err := e.Unmarshal(exact(wire1)); err != nil {
+			return "", fmt.Errorf("unmarshal: %v", err)
+		}
+		a, ok := e.EapTypeData.(*eap.EapAkaPrime)
+		if !ok {
+			return "not-aka", nil
+		}
+		for _, st := range sets2 {
+			if err := a.SetAttr(eap.EapAkaPrimeAttrType(st.U(1)), st.B(2)); err != nil {
+				return "", fmt.Errorf("setattr %d: %v", st.U(1), err)
+			}
+		}
+		if d := akaGetCheck(a, wantAttrs(all.List[2:]), false); d != "" {
+			return "readback: " + d, nil
+		}
+		b, err := e.Marshal()
+		if err != nil {
+			return "", err
+		}
+		return hx(b), nil
+	})
+	if r.String() != "ok "+hx(wantWire) {
+		c.violate(Violation{Suite: s.Name, Kind: "property", Index: idx, Class: "decoded-then-set:" + r.kind,
+			Desc:  "a decoded EAP-AKA' message to which further attributes were set through SetAttr does not read back / encode as the message holding the received and the set attributes",
+			Input: text, Expected: "ok " + hx(wantWire), Actual: clip(r.String())})
+	}
+}
+
 func propC14(c *Ctx) {
 	g := NewGen(c.seed)
 	if c.replay != nil {
@@ -762,6 +807,9 @@ func propC14(c *Ctx) {
 	for i := 0; i < c.n(1500, 100000); i++ {
 		if i%3 == 1 { // the process also decodes what peers send, in between
 			c14ForeignDecode(g)
+		}
+		if i%4 == 2 {
+			c.c14DecodedThenSet(s1, g, idx)
 		}
 		c.c14Case(s1, g.c14Eap(i), idx, &corr)
 		idx++
